@@ -73,3 +73,9 @@ Fixpoint no_stray_backslash (s : str) (d : nat) : bool :=
          | _ => no_stray_backslash t d
          end
   end.
+
+(* ---- the separator characters of a name: whitespace, tie, comma, and the backslash (of a control
+        space); [content] is what is left of a string when they are removed ---- *)
+Definition name_sep (c : char) : bool :=
+  is_space c || N.eqb c c_tilde || N.eqb c c_bslash || N.eqb c c_comma.
+Definition content (s : str) : str := filter (fun c => negb (name_sep c)) s.
